@@ -1,5 +1,5 @@
 (* C02 - Compact-unwind + instruction analysis is exact in prologues and epilogues. *)
-From FH Require Import Consts Word X86 A64 Unwinder Macho MachoCb X86Unw A64Unw X86Exec MachoFacts MachoGrammar.
+From FH Require Import Consts Word X86 A64 Unwinder Macho MachoCb X86Unw A64Unw X86Exec MachoFacts MachoGrammar A64Enc A64Grammar.
 From Coq Require Import Lia.
 Open Scope N_scope.
 
@@ -101,3 +101,58 @@ Example C02_example :
   analysis_x86 text 7 = None /\
   enc_pushes [15] = [65; 87] /\ enc_pops [3; 15] ++ [195] = [91; 65; 95; 195].
 Proof. vm_compute. auto. Qed.
+
+(* ======================================================================= arm64 (Proofs/A64Grammar.v)
+   Prologue grammar:  [pacibsp] ; (stp xa, xb, [sp, #-n]! | stp xa, xb, [sp, #n] | sub sp, sp, #n)* ; add x29, sp, #n
+   Epilogue grammar:  (add sp, sp, #n | ldp xa, xb, [sp, #n] | ldp xa, xb, [sp], #n)* ; (ret | retab | b target)
+   with the real A64 encodings (A64Enc.v; bit-field facts by enumeration of the operand space). *)
+
+(* stopped anywhere in the prologue before the frame pointer is set up: the thread entered with (sp0, lr0, fp0)
+   and executed [done]; the analyser's rule, run on the registers it has NOW, gives the caller's frame.
+   [sign] is what pacibsp does to lr: any function that stripping undoes. *)
+Theorem C02_a64_prologue_exact : forall k sign, (forall v, strip k (sign v) = strip k v) ->
+  forall done nxt rest sp0 lr0 fp0 m,
+  Forall pvalid done -> nvalid nxt -> words_ok rest ->
+  (psum done < 1048576)%Z -> (psum done mod 16 = 0)%Z -> (psum done <= Z.of_N sp0)%Z -> sp0 < W64 ->
+  (nneeds_sub nxt = true -> psum done <> 0%Z) ->
+  strip k lr0 <> 0 ->
+  let st := prun sign done (sp0, lr0) in
+  let rg := mkaregs k (snd st) (fst st) fp0 in
+  exists ru, prologue_a64 (bytes_of (map penc done ++ nenc nxt :: rest)) (4 * length done) = Some ru /\
+  aexec ru true rg m = (Ok (Some (strip k lr0)), mkaregs k (strip k lr0) sp0 fp0).
+Proof. exact prologue_a64_exact. Qed.
+Print Assumptions C02_a64_prologue_exact.
+
+(* stopped at any instruction of the epilogue: the analyser's rule, run on the current registers, produces
+   exactly what running the rest of the epilogue on the machine produces *)
+Theorem C02_a64_epilogue_exact : forall pre x l t more k sp0 fp0 lr0 m,
+  words_ok pre -> Forall evalid (x :: l) -> tvalid t ->
+  let sF := run_spec (x :: l) s0 in
+  let MF := mrun m (x :: l) (mkmst sp0 fp0 lr0) in
+  term_ok t sF ->
+  (es_sp sF < 1048576)%Z -> (es_sp sF mod 16 = 0)%Z ->
+  loc_ok m sp0 (es_fp sF) -> loc_ok m sp0 (es_lr sF) -> (es_fp sF <> None -> es_lr sF <> None) ->
+  (262144 <= Z.of_N sp0)%Z -> sp0 + 2097152 < W64 ->
+  strip k (m_lr MF) <> 0 ->
+  exists ru,
+    epilogue_a64 (bytes_of (pre ++ eenc x :: map eenc l ++ tenc t :: more)) (4 * length pre) = Some ru /\
+    aexec ru true (mkaregs k lr0 sp0 fp0) m = (Ok (Some (strip k (m_lr MF))), mkaregs k (strip k (m_lr MF)) (m_sp MF) (m_fp MF)).
+Proof. exact epilogue_a64_exact. Qed.
+Print Assumptions C02_a64_epilogue_exact.
+
+(* at the return instruction, and at a tail-call branch right after the instruction that raised sp, everything
+   has been restored: the rule is NoOp (return address in lr) *)
+Theorem C02_a64_at_ret : forall pre t more, words_ok pre -> (t = TRet \/ t = TRetab) ->
+  epilogue_a64 (bytes_of (pre ++ tenc t :: more)) (4 * length pre) = Some ANoOp.
+Proof. exact epilogue_a64_at_ret. Qed.
+Print Assumptions C02_a64_at_ret.
+
+Theorem C02_a64_at_tail_call : forall pre x i more,
+  words_ok pre -> evalid x -> (match x with ELdpOff _ _ _ => False | _ => True end) -> i < 67108864 ->
+  epilogue_a64 (bytes_of ((pre ++ [eenc x]) ++ enc_b i :: more)) (4 * length (pre ++ [eenc x])) = Some ANoOp.
+Proof. exact epilogue_a64_at_tail_call. Qed.
+Print Assumptions C02_a64_at_tail_call.
+
+(* the grammars are inhabited by clang's frames *)
+Check prologue_example.
+Check epilogue_example.
